@@ -45,6 +45,15 @@ class Prop(PropBase):
             nops = rng.choice([2, 3, 5, 8, 13, 21, 34]) if tier == "quick" else rng.choice([3, 8, 21, 60, 150])
             line = tg.history(rng, nops, sized=True, ops_weights=ERASE_WEIGHTS)
             cs.append(Case(line, tag="history", nontrivial=" er " in line, cfgs=tg.configs(rng, 3)))
+        # correspondence only: glyphs with arbitrary (non-graphic) bytes - LF, NUL, ESC, C1 controls - and unconstructible colours
+        for i in range(400 if tier == "quick" else 6000):
+            cs.append(Case(tg.history(rng, rng.choice([2, 4, 8, 20]), graphic=False), tag="history-any-bytes", oracle=False))
+        # the erase inside screen::draw (a draw at a new canvas size): what is painted after it must look as requested
+        from .. import screengen as sg
+        from .C03 import CFGS as SCFGS
+        for _ in range(400 if tier == "quick" else 8000):
+            line = sg.frames(rng, rng.choice([2, 3, 4, 6]))
+            cs.append(Case(line, tag="frames", nontrivial=" dr" in line, cfgs=[rng.choice(SCFGS) for _ in range(2)]))
         shc = ["%d %d %d %d 7 4" % (wv, e, r, z) for wv in range(3) for e in range(3) for r in range(6) for z in range(4)]
         for line, cf in tg.short_histories(3 if tier == "quick" else 4, shc):
             cs.append(Case(line, sweep="short-histories", cfgs=cf))
